@@ -192,6 +192,16 @@ def step(t, depth) -> str:
                 elif m2 is not m:
                     return "replace_path(%s): unrelated subtree %s changed" % (p, q)
             results.append(("replace_path(%s,%s)" % (p, v), t2))
+            # retain_id=True: the node at the path keeps the identity of the node it replaces (label / children of the replacement)
+            t4 = t.replace_path(p, v, retain_id=True)
+            m4 = t4.get_subtree(p)
+            if m4 is None or m4.id != n.id or m4.value != v.value or t4.find_node(n.id) != p:
+                return "replace_path(%s, retain_id=True): the node at the path has id %s instead of %s" % (p, None if m4 is None else m4.id, n.id)
+            if not struct_eq(t4, t2):
+                return "replace_path(%s, retain_id=True) differs structurally from replace_path" % (p,)
+            r4 = inv(t4, identity=False)
+            if r4:
+                return "replace_path(%s, retain_id=True): %s" % (p, r4)
             t3 = t.substitute({n: v})
             if not struct_eq(t2, t3) or [x.id for _, x in nodes(t2)] != [x.id for _, x in nodes(t3)]:
                 return "substitute({node at %s: %s}) differs from replace_path" % (p, v)
